@@ -71,3 +71,37 @@ def irrelevant_item(key, value, normalize_amp=True):
     if normalize_amp and k in AMP_COMBOS_SPEC:
         return value in AMP_COMBOS_SPEC[k]
     return False
+
+
+# ---- every Unicode white-space / separator / control character, escaped, at the places where stripping could eat it
+import unicodedata as _ud
+
+
+def space_like_chars():
+    out = []
+    for i in range(0x110000):
+        if 0xD800 <= i <= 0xDFFF:
+            continue
+        c = chr(i)
+        if c.isspace() or _ud.category(c) in ("Cc", "Zs", "Zl", "Zp"):
+            out.append(c)
+    return out
+
+
+def esc(c):
+    return "".join("%%%02X" % b for b in c.encode("utf-8"))
+
+
+SWEEP_POSITIONS = ["path-end", "query-end", "fragment-end", "user-end", "path-mid", "path-start"]
+
+
+def sweep_url(c, position):
+    e = esc(c)
+    return {
+        "path-end": "http://a.com/x" + e,
+        "query-end": "http://a.com/p?k=v" + e,
+        "fragment-end": "http://a.com/p#/r" + e,
+        "user-end": "http://u" + e + "@a.com/p",
+        "path-mid": "http://a.com/x" + e + "y/z",
+        "path-start": "http://a.com/" + e + "x",
+    }[position]
